@@ -786,6 +786,11 @@ class PowerLawSD(CustomSD):
                           name=self.name,
                           description=self.description)
 
+    def __deepcopy__(self, memo) -> 'PowerLawSD':
+        """Like a copy (all parameters are plain numbers and strings): the
+        default deep copy would share the j-function of the original. """
+        return self.__copy__()
+
     def _parameters(self) -> tuple:
         """The current parameters that determine the spectral density. """
         return super()._parameters() + (self.alpha, self.zeta)
